@@ -148,6 +148,12 @@ def apply_and_check(m, op, spec):
                 for r in [w for tm in p.organization.team_list for w in tm.worker_list] + [f for wp in p.organization.workplace_list for f in wp.facility_list]:
                     if i < len(r.state_record_list) and int(r.state_record_list[i]) == S.R_WORKING:
                         out.append(("C18:inserted-step-logs-resource-WORKING[%s]" % tag, {"op": op, "resource": r.ID, "index": i}))
+                    if i == 0 and r.assigned_task_id_record and r.assigned_task_id_record[0]:
+                        out.append(("C18:inserted-step-0-shows-an-assignment[%s]" % tag, {"op": op, "resource": r.ID, "assigned": r.assigned_task_id_record[0]}))
+                if i == 0:
+                    for t in p.workflow.task_list:
+                        if (t.allocated_worker_id_record and t.allocated_worker_id_record[0]) or (t.allocated_facility_id_record and t.allocated_facility_id_record[0]):
+                            out.append(("C18:inserted-step-0-shows-an-allocation[%s]" % tag, {"op": op, "task": t.ID}))
     return out, False
 
 
@@ -251,7 +257,7 @@ def run(tier, seed):
         depth = 2 if tier == "quick" else 3
         items = []
         for sp, label in base_models(tmpdir):
-            for sim_abs in ((), (1,), (0, 2), (1, 30, 31), ("back", 1), ("back", 1, 3, 40, 41)):
+            for sim_abs in ((), (1,), (0, 2), (1, 30, 31), (1, 3, 1, 40), (2, 2), ("back", 1), ("back", 1, 3, 40, 41)):
                 items.append((sp, label, sim_abs, depth, tier))
         col = engines.fanout(items, work, seed=seed, chunks_per_proc=2)
     finally:
